@@ -4,7 +4,7 @@
    is refused.  The stream and the key are those a direct recomputation from the initial
    session and the packet yields (pkt_stream / sender_key / receiver_key). *)
 From Coq Require Import NArith ZArith List Bool Lia.
-From Srtp Require Import Util Constants KeyLimit Rdb Rdbx Icm World Stream Rtp Rtcp MonadLemmas EnvelopeProofs WfProofs BoundsRtcp.
+From Srtp Require Import Util Constants KeyLimit Rdb Rdbx Icm World Stream Rtp Rtcp MonadLemmas RejectProofs EnvelopeProofs WfProofs BoundsRtcp BoundsRtp.
 Import ListNotations.
 Local Open Scope Z_scope.
 
@@ -182,8 +182,97 @@ Lemma cfg_sender_key st0 st i k :
   cfg_eq st0 st -> nth_error (s_keys st) (zn (if s_use_mki st then i else 0)) = Some k -> sender_key st0 i = Some k.
 Proof. intros (K & _ & U & _) H. unfold sender_key. rewrite <- K, <- U. exact H. Qed.
 
+Lemma receiver_key_In st srcb len t0 k : receiver_key st srcb len t0 = Some k -> In k (s_keys st).
+Proof.
+  unfold receiver_key. destruct (negb (s_use_mki st)).
+  - destruct (s_keys st) as [|k0 t]; cbn; intros H; [discriminate|]. injection H as <-. left. reflexivity.
+  - destruct (find_mki _ _ 0) as [r|] eqn:F; cbn; intros H; [|discriminate]. injection H as <-.
+    exact (find_mki_In _ _ _ _ F).
+Qed.
+Lemma receiver_key_wf st srcb len t0 k :
+  stream_wf st -> receiver_key st srcb len t0 = Some k -> key_wf (s_mki_size st) k.
+Proof. intros W H. exact (stream_wf_key _ _ W (receiver_key_In _ _ _ _ _ H)). Qed.
 Lemma sender_key_wf st i k : stream_wf st -> sender_key st i = Some k -> key_wf (s_mki_size st) k.
 Proof. intros W H. apply (stream_wf_key _ _ W). exact (nth_error_In _ _ H). Qed.
+
+(* ---- computations that keep b_len ---- *)
+Definition len_pres {A} (m : M A) : Prop := forall w, b_len (w_b (fst (m w))) = b_len (w_b w).
+Lemma lp_ret {A} (a : A) : len_pres (ret a). Proof. intros w; reflexivity. Qed.
+Lemma lp_exit {A} st : len_pres (@exit_with A st). Proof. intros w; reflexivity. Qed.
+Lemma lp_bind {A B} (m : M A) (f : A -> M B) : len_pres m -> (forall a, len_pres (f a)) -> len_pres (bind m f).
+Proof.
+  intros Hm Hf w. unfold bind. specialize (Hm w). destruct (m w) as [w1 [a|st]]; cbn [fst] in *.
+  - rewrite (Hf a w1). exact Hm.
+  - exact Hm.
+Qed.
+Lemma lp_if {A} (c : bool) (m1 m2 : M A) : len_pres m1 -> len_pres m2 -> len_pres (if c then m1 else m2).
+Proof. destruct c; auto. Qed.
+Lemma lp_get_b : len_pres get_b. Proof. intros w; reflexivity. Qed.
+Lemma lp_get_s : len_pres get_s. Proof. intros w; reflexivity. Qed.
+Lemma lp_check_st st : len_pres (check_st st).
+Proof. unfold check_st. apply lp_if; [apply lp_ret|apply lp_exit]. Qed.
+Lemma lp_rd_src off n : len_pres (rd_src off n).
+Proof.
+  intros w. unfold rd_src, bind, get_b. destruct (_ || _); reflexivity.
+Qed.
+Lemma lp_get_stream r : len_pres (get_stream r).
+Proof.
+  unfold get_stream. apply lp_bind; [apply lp_get_s|intros s]. destruct r.
+  - destruct (ss_template s); [apply lp_ret|apply lp_exit].
+  - destruct (list_get (ss_list s) ssrc); [apply lp_ret|apply lp_exit].
+Qed.
+Ltac lp_step :=
+  first [ apply lp_ret | apply lp_exit | apply lp_get_b | apply lp_get_s | apply lp_check_st
+        | apply lp_rd_src | apply lp_get_stream | (apply lp_bind; [ | intros ? ]) | apply lp_if ].
+Ltac lp_auto := repeat (lp_step || match goal with |- len_pres (match ?x with _ => _ end) => destruct x end).
+Lemma lp_keys_by_packet st len tl : len_pres (keys_by_packet st len tl).
+Proof. unfold keys_by_packet. lp_auto. Qed.
+Lemma lp_unprotect_rtcp_pre : len_pres unprotect_rtcp_pre.
+Proof.
+  unfold unprotect_rtcp_pre.
+  apply lp_bind; [apply lp_get_b|intros b].
+  apply lp_bind; [lp_auto|intros ?].
+  apply lp_bind; [apply lp_get_s|intros ss].
+  apply lp_bind; [lp_auto|intros r0].
+  apply lp_bind; [apply lp_get_stream|intros st].
+  apply lp_bind; [apply lp_keys_by_packet|intros [ki k]].
+  lp_auto.
+Qed.
+
+(* ---- reads that stay in bounds leave the world alone ---- *)
+Lemma h_rd_src_eq w0 off n :
+  0 <= off -> 0 <= n -> off + n <= b_len (w_b w0) ->
+  hoare (eq w0) (rd_src off n) (fun d w => d = slice (zn off) (zn n) (cur_src (w_b w0)) /\ w0 = w) TT.
+Proof.
+  intros H1 H2 H3 w <-. unfold rd_src, bind, get_b.
+  assert (Hc : (off <? 0) || (n <? 0) || (b_len (w_b w0) <? off + n) = false).
+  { rewrite !orb_false_iff, !Z.ltb_ge. lia. }
+  rewrite Hc. cbn. auto.
+Qed.
+Definition lookup (s : session) (r : sref) : option stream :=
+  match r with RTemplate => ss_template s | RList x => list_get (ss_list s) x end.
+Lemma h_get_stream_eq w0 r :
+  hoare (eq w0) (get_stream r) (fun st w => lookup (w_s w0) r = Some st /\ w0 = w) TT.
+Proof.
+  intros w <-. cbv beta iota delta [bind get_stream get_s]. destruct r; cbn [lookup].
+  - destruct (ss_template (w_s w0)); cbn; [auto|exact I].
+  - destruct (list_get (ss_list (w_s w0)) ssrc); cbn; [auto|exact I].
+Qed.
+Lemma h_keys_by_packet_eq w0 st tl :
+  stream_wf st -> 0 <= tl ->
+  hoare (eq w0) (keys_by_packet st (b_len (w_b w0)) tl)
+        (fun ik w => receiver_key st (cur_src (w_b w0)) (b_len (w_b w0)) tl = Some (snd ik) /\ w0 = w) TT.
+Proof.
+  intros (M & _ & _) Htl. unfold keys_by_packet, receiver_key.
+  destruct (negb (s_use_mki st)).
+  - destruct (s_keys st) as [|k t]; [apply h_exit; apply tt_any|]. apply h_ret. intros w <-. cbn. auto.
+  - destruct (b_len (w_b w0) <? tl) eqn:E1; [apply h_exit; apply tt_any|].
+    destruct (b_len (w_b w0) - tl <? s_mki_size st) eqn:E2; [apply h_exit; apply tt_any|].
+    apply Z.ltb_ge in E1, E2.
+    eapply h_bind; [apply h_rd_src_eq; lia|intros m]. apply h_pure; intros ->.
+    destruct (find_mki (s_keys st) _ 0) as [r|]; [|apply h_exit; apply tt_any].
+    apply h_ret. intros w <-. cbn. auto.
+Qed.
 
 (* ===================================================================== *)
 (* SRTCP                                                                  *)
@@ -239,3 +328,243 @@ Proof.
   rewrite H1 in G1. injection G1 as <-. rewrite H2 in G2. injection G2 as <-. lia.
 Qed.
 End RTCP_LEN.
+
+Section RTCP_LEN2.
+Variable w0 : world.
+Let L := b_len (w_b w0).
+Let C := b_cap (w_b w0).
+Let ssrc := be32 (take (zn L) (cur_src (w_b w0))) 4.
+Hypothesis HW : session_wf (w_s w0).
+
+Lemma unprotect_rtcp_pre_len_h :
+  hoare (eq w0) unprotect_rtcp_pre
+    (fun u _ => exists st k, pkt_stream (w_s w0) ssrc = Some st /\
+                 receiver_key st (cur_src (w_b w0)) L (rtcp_tag0 st) = Some k /\
+                 c_tag_len u = ak_tag (k_rtcp_a k) /\ c_mki u = s_mki_size st /\
+                 8 + 4 + s_mki_size st + ak_tag (k_rtcp_a k) <= L /\
+                 u64 (L - 4 - s_mki_size st - ak_tag (k_rtcp_a k)) <= C) TT.
+Proof.
+  unfold unprotect_rtcp_pre.
+  eapply h_bind; [apply h_get_b_eq|intros b]. apply h_pure; intros ->.
+  cbv beta zeta. fold L C ssrc.
+  change octets_in_rtcp_header_c with 8. change trailer_len with 4.
+  destruct (L <? 8 + 4) eqn:E0; [apply h_bind_exit; apply tt_any|]. apply h_bind_ret.
+  apply h_bind with (R := fun ss w => ss = w_s w0 /\ w0 = w); [intros w <-; cbn; exact (conj eq_refl eq_refl)|intros ss]. apply h_pure; intros ->.
+  apply h_bind with (R := fun r w => pkt_stream (w_s w0) ssrc = lookup (w_s w0) r /\ w0 = w).
+  { unfold pkt_stream. destruct (list_get (ss_list (w_s w0)) ssrc) eqn:E1.
+    - apply h_ret. intros w <-. cbn [lookup]. rewrite E1. auto.
+    - destruct (ss_template (w_s w0)) eqn:E2; [|apply h_exit; apply tt_any]. apply h_ret. intros w <-. cbn [lookup]. auto. }
+  intros r0. apply h_pure; intros Hr0.
+  eapply h_bind; [apply h_get_stream_eq|intros st]. apply h_pure; intros Hst. rewrite <- Hr0 in Hst.
+  pose proof (pkt_stream_wf _ _ _ HW Hst) as W.
+  assert (T0 : 0 <= rtcp_tag0 st).
+  { unfold rtcp_tag0. destruct (s_keys st) as [|k0 t] eqn:EK; [lia|].
+    assert (I0 : In k0 (s_keys st)) by (rewrite EK; left; reflexivity).
+    destruct (stream_wf_key _ _ W I0) as (_ & _ & [T _]). lia. }
+  fold (rtcp_tag0 st).
+  eapply h_bind; [apply (h_keys_by_packet_eq w0 st (rtcp_tag0 st) W T0)|intros [ki k]].
+  apply h_pure; cbn [snd]; intros Hk. fold L in Hk.
+  apply h_returns.
+  destruct (L <? 8 + 4 + s_mki_size st + ak_tag (k_rtcp_a k)) eqn:E1; [apply r_bind_exit|]. apply r_bind_ret.
+  apply Z.ltb_ge in E1.
+  apply r_bind; intros tr. apply r_bind; intros ?. apply r_bind; intros ?. apply r_bind; intros pre.
+  apply r_bind; intros m. apply r_bind; intros ?. apply r_bind; intros t. apply r_bind; intros ?.
+  destruct (C <? u64 (L - 4 - s_mki_size st - ak_tag (k_rtcp_a k))) eqn:E2; [apply r_bind_exit|]. apply r_bind_ret.
+  apply Z.ltb_ge in E2. apply r_ret. cbn [c_tag_len c_mki].
+  exists st, k. repeat split; try assumption; lia.
+Qed.
+
+Lemma unprotect_rtcp_post_len_h u :
+  hoare (fun w => b_len (w_b w) = L) (unprotect_rtcp_post u)
+        (fun l _ => l = u64 (L - (c_tag_len u + 4) - c_mki u)) TT.
+Proof.
+  unfold unprotect_rtcp_post.
+  eapply h_bind with (R := fun b w => b_len b = L /\ TT w); [intros w H; cbn; exact (conj H I)|intros b]. apply h_pure; intros Hb.
+  cbv beta zeta. rewrite Hb. change trailer_len with 4.
+  apply h_returns. rwalk. reflexivity.
+Qed.
+
+Theorem unprotect_rtcp_length w' l :
+  size_ok L -> unprotect_rtcp w0 = (w', inl l) ->
+  exists st k, pkt_stream (w_s w0) ssrc = Some st /\
+               receiver_key st (cur_src (w_b w0)) L (rtcp_tag0 st) = Some k /\
+               l = L - 4 - s_mki_size st - ak_tag (k_rtcp_a k) /\ l <= C.
+Proof.
+  intros HL E. unfold unprotect_rtcp in E. apply bind_inv in E.
+  destruct E as [(u & w1 & E1 & E2)|(s & _ & E)]; [|discriminate].
+  destruct (hoare_returns _ _ _ _ _ _ unprotect_rtcp_pre_len_h eq_refl E1) as (st & k & H1 & H2 & H3 & H4 & H5 & H6).
+  assert (LB : b_len (w_b w1) = L) by (pose proof (lp_unprotect_rtcp_pre w0) as P; rewrite E1 in P; exact P).
+  pose proof (hoare_returns _ _ _ _ _ _ (unprotect_rtcp_post_len_h u) LB E2) as V. cbv beta in V.
+  exists st, k. split; [exact H1|]. split; [exact H2|].
+  pose proof (pkt_stream_wf _ _ _ HW H1) as W. destruct (receiver_key_wf _ _ _ _ _ W H2) as (_ & _ & [T _]).
+  destruct W as (M & _ & _). unfold size_ok in HL.
+  rewrite H3, H4 in V. rewrite u64_small in V by lia. rewrite u64_small in H6 by lia. lia.
+Qed.
+End RTCP_LEN2.
+Print Assumptions protect_rtcp_length.
+Print Assumptions protect_rtcp_small_buffer_refused.
+Print Assumptions unprotect_rtcp_length.
+
+(* ===================================================================== *)
+(* SRTP                                                                   *)
+Section RTP_LEN.
+Variable w0 : world.
+Let L := b_len (w_b w0).
+Let C := b_cap (w_b w0).
+Let pkt := take (zn L) (cur_src (w_b w0)).
+Let ssrc := hdr_ssrc pkt.
+Hypothesis HW : session_wf (w_s w0).
+
+Lemma protect_len_h i :
+  hoare (eq w0) (protect i)
+    (fun l _ => exists st k, pkt_stream (w_s w0) ssrc = Some st /\ sender_key st i = Some k /\
+                 12 <= L /\ L + s_mki_size st + ak_tag (k_rtp_a k) <= C /\
+                 l = u64 (L + s_mki_size st + ak_tag (k_rtp_a k))) TT.
+Proof.
+  unfold protect.
+  eapply h_bind; [apply h_get_b_eq|intros b]. apply h_pure; intros ->.
+  cbv beta zeta. fold L C pkt ssrc.
+  eapply h_bind; [apply h_check_stP|intros ?]. apply h_pure; intros V.
+  apply validate_rtp_ok in V. destruct V as (V1 & _).
+  eapply h_bind; [apply lookup_or_clone_Sx|intros r]. apply h_pure; intros ->.
+  apply h_ex; intros st0. apply h_pure; intros Hst0.
+  eapply h_bind; [apply check_direction_Sx|intros ?].
+  eapply h_bind; [apply get_stream_Sx|intros st]. apply h_pure; intros Hc.
+  eapply h_bind; [apply (h_sbP _ _ _ (sb_keys_by_index st i) (r_keys_by_index st i) (Sx_sess_only ssrc st0))|intros [ki k]].
+  apply h_pure; cbn [snd]; intros Hk.
+  eapply h_bind; [apply charge_key_Sx|intros ?].
+  destruct (C <? L + s_mki_size st + ak_tag (k_rtp_a k)) eqn:E1; [apply h_bind_exit; apply tt_any|]. apply h_bind_ret.
+  apply Z.ltb_ge in E1.
+  apply h_bind with (R := fun _ => Sx ssrc st0); [apply h_sp; [sp_auto|apply Sx_sess_only]|intros ?].
+  apply h_bind with (R := fun _ => Sx ssrc st0); [apply h_sp; [sp_auto|apply Sx_sess_only]|intros ?].
+  apply h_bind with (R := fun _ => Sx ssrc st0); [apply h_sp; [sp_auto|apply Sx_sess_only]|intros ?].
+  apply h_bind with (R := fun _ => Sx ssrc st0); [apply h_sp; [sp_auto|apply Sx_sess_only]|intros ?].
+  apply h_bind with (R := fun _ => Sx ssrc st0); [apply h_sp; [sp_auto|apply Sx_sess_only]|intros ?].
+  eapply h_bind; [apply get_stream_Sx|intros st2]. apply h_pure; intros Hc2.
+  apply h_returns. rwalk.
+  all: exists st0, k; pose proof Hc as (_ & M & _ & _); pose proof Hc2 as (_ & M2 & _ & _); rewrite M in *; rewrite M2;
+    (split; [exact Hst0|]); (split; [exact (cfg_sender_key _ _ _ _ Hc Hk)|]); (split; [exact V1|]); (split; [exact E1|]); f_equal; lia.
+Qed.
+
+Theorem protect_length i w' l :
+  size_ok C -> protect i w0 = (w', inl l) ->
+  exists st k, pkt_stream (w_s w0) ssrc = Some st /\ sender_key st i = Some k /\
+               l = L + s_mki_size st + ak_tag (k_rtp_a k) /\ l <= C.
+Proof.
+  intros HC E. destruct (hoare_returns _ _ _ _ _ _ (protect_len_h i) eq_refl E) as (st & k & H1 & H2 & H3 & H4 & H5).
+  exists st, k. split; [exact H1|]. split; [exact H2|].
+  pose proof (pkt_stream_wf _ _ _ HW H1) as W. destruct (sender_key_wf _ _ _ W H2) as (_ & [T _] & _).
+  destruct W as (M & _). unfold size_ok in HC. rewrite u64_small in H5 by lia. lia.
+Qed.
+
+(* "small buffer refused": with *out_len below len + mki + tag srtp_protect does not succeed *)
+Theorem protect_small_buffer_refused i st k :
+  pkt_stream (w_s w0) ssrc = Some st -> sender_key st i = Some k ->
+  C < L + s_mki_size st + ak_tag (k_rtp_a k) ->
+  forall w' l, protect i w0 <> (w', inl l).
+Proof.
+  intros H1 H2 HS w' l E.
+  destruct (hoare_returns _ _ _ _ _ _ (protect_len_h i) eq_refl E) as (st' & k' & G1 & G2 & _ & G4 & _).
+  rewrite H1 in G1. injection G1 as <-. rewrite H2 in G2. injection G2 as <-. lia.
+Qed.
+End RTP_LEN.
+Print Assumptions protect_length.
+Print Assumptions protect_small_buffer_refused.
+
+
+(* ---- computations that do not change the world at all ---- *)
+Definition wpres {A} (m : M A) : Prop := forall w, fst (m w) = w.
+Lemma wp_ret {A} (a : A) : wpres (ret a). Proof. intros w; reflexivity. Qed.
+Lemma wp_exit {A} st : wpres (@exit_with A st). Proof. intros w; reflexivity. Qed.
+Lemma wp_bind {A B} (m : M A) (f : A -> M B) : wpres m -> (forall a, wpres (f a)) -> wpres (bind m f).
+Proof.
+  intros Hm Hf w. unfold bind. specialize (Hm w). destruct (m w) as [w1 [a|st]]; cbn [fst] in *; subst w1; [apply Hf|reflexivity].
+Qed.
+Lemma wp_if {A} (c : bool) (m1 m2 : M A) : wpres m1 -> wpres m2 -> wpres (if c then m1 else m2).
+Proof. destruct c; auto. Qed.
+Lemma wp_check_st st : wpres (check_st st).
+Proof. unfold check_st. apply wp_if; [apply wp_ret|apply wp_exit]. Qed.
+Lemma h_wp {A} w0 (m : M A) : wpres m -> hoare (eq w0) m (fun _ w => w0 = w) TT.
+Proof. intros H w <-. specialize (H w0). destruct (m w0) as [w1 [a|st]]; [symmetry; exact H|exact I]. Qed.
+
+Section RTP_LEN2.
+Variable w0 : world.
+Let L := b_len (w_b w0).
+Let C := b_cap (w_b w0).
+Let pkt := take (zn L) (cur_src (w_b w0)).
+Let ssrc := hdr_ssrc pkt.
+Hypothesis HW : session_wf (w_s w0).
+
+Lemma unprotect_pre_len_h :
+  hoare (eq w0) unprotect_pre
+    (fun u _ => exists st k, pkt_stream (w_s w0) ssrc = Some st /\
+                 receiver_key st (cur_src (w_b w0)) L (rtp_tag0 st) = Some k /\
+                 12 <= L /\ 0 <= u_enc_start u /\
+                 u_enc_start u <= u64 (L - ak_tag (k_rtp_a k) - s_mki_size st) /\
+                 u_enc_len u = u64 (L - u_enc_start u - s_mki_size st - ak_tag (k_rtp_a k)) /\
+                 u64 (L - s_mki_size st - ak_tag (k_rtp_a k)) <= C) TT.
+Proof.
+  unfold unprotect_pre.
+  eapply h_bind; [apply h_get_b_eq|intros b]. apply h_pure; intros ->.
+  cbv beta zeta. fold L C pkt ssrc.
+  eapply h_bind; [apply h_check_stP|intros ?]. apply h_pure; intros V.
+  apply validate_rtp_ok in V. destruct V as (V1 & _).
+  apply h_bind with (R := fun ss w => ss = w_s w0 /\ w0 = w); [intros w <-; cbn; exact (conj eq_refl eq_refl)|intros ss]. apply h_pure; intros ->.
+  apply h_bind with (R := fun r w => pkt_stream (w_s w0) ssrc = lookup (w_s w0) r /\ w0 = w).
+  { unfold pkt_stream. destruct (list_get (ss_list (w_s w0)) ssrc) eqn:E1.
+    - apply h_ret. intros w <-. cbn [lookup]. rewrite E1. auto.
+    - destruct (ss_template (w_s w0)) eqn:E2; [|apply h_exit; apply tt_any]. apply h_ret. intros w <-. cbn [lookup]. auto. }
+  intros r0. apply h_pure; intros Hr0.
+  eapply h_bind; [apply h_get_stream_eq|intros st]. apply h_pure; intros Hst. rewrite <- Hr0 in Hst.
+  pose proof (pkt_stream_wf _ _ _ HW Hst) as W.
+  assert (T0 : 0 <= rtp_tag0 st).
+  { unfold rtp_tag0. destruct (s_keys st) as [|k0 t] eqn:EK; [lia|].
+    assert (I0 : In k0 (s_keys st)) by (rewrite EK; left; reflexivity).
+    destruct (stream_wf_key _ _ W I0) as (_ & [T _] & _). lia. }
+  fold (rtp_tag0 st).
+  eapply h_bind.
+  { apply h_wp. destruct r0; [apply wp_ret|]. destruct (est_index st (hdr_seq pkt)) as [[es e] d].
+    apply wp_bind; [apply wp_if; [apply wp_exit|apply wp_ret]|intros ?].
+    apply wp_if; [apply wp_ret|]. apply wp_bind; [apply wp_check_st|intros ?]. apply wp_ret. }
+  intros [[est delta] adv].
+  eapply h_bind; [apply (h_keys_by_packet_eq w0 st (rtp_tag0 st) W T0)|intros [ki k]].
+  apply h_pure; cbn [snd]; intros Hk. fold L in Hk.
+  apply h_returns.
+  apply r_bind; intros inuse. apply r_bind; intros xl.
+  change octets_in_rtp_header_c with 12. change octets_in_rtp_xtn_hdr_c with 4.
+  match goal with |- context [u64 (L - ak_tag (k_rtp_a k) - s_mki_size st) <? ?e] => remember e as es eqn:Hes end.
+  assert (ES : 0 <= es).
+  { subst es. destruct inuse; [apply u64_range|]. pose proof (hdr_cc_range pkt). pose proof (hdr_len_eq pkt).
+    pose proof (xtn_len_ge pkt). destruct (hdr_x pkt =? 1); lia. }
+  destruct (u64 (L - ak_tag (k_rtp_a k) - s_mki_size st) <? es) eqn:E2; [apply r_bind_exit|]. apply r_bind_ret.
+  destruct (C <? u64 (L - s_mki_size st - ak_tag (k_rtp_a k))) eqn:E3; [apply r_bind_exit|]. apply r_bind_ret.
+  apply Z.ltb_ge in E2, E3.
+  apply r_bind; intros ?. apply r_bind; intros cs1. apply r_ret.
+  cbn [u_enc_start u_enc_len]. exists st, k. repeat split; assumption.
+Qed.
+
+Lemma unprotect_post_len u : returns (unprotect_post u) (fun l => l = u64 (u_enc_start u + u_enc_len u)).
+Proof. unfold unprotect_post. rwalk; reflexivity. Qed.
+
+Theorem unprotect_length w' l :
+  size_ok L -> size_ok C -> unprotect w0 = (w', inl l) ->
+  exists st k, pkt_stream (w_s w0) ssrc = Some st /\
+               receiver_key st (cur_src (w_b w0)) L (rtp_tag0 st) = Some k /\
+               l = L - s_mki_size st - ak_tag (k_rtp_a k) /\ l <= C.
+Proof.
+  intros HL HC E. unfold unprotect in E. apply bind_inv in E.
+  destruct E as [(u & w1 & E1 & E2)|(s & _ & E)]; [|discriminate].
+  destruct (hoare_returns _ _ _ _ _ _ unprotect_pre_len_h eq_refl E1) as (st & k & H1 & H2 & H3 & H4 & H5 & H6 & H7).
+  pose proof (unprotect_post_len u _ _ _ E2) as V. cbv beta in V.
+  exists st, k. split; [exact H1|]. split; [exact H2|].
+  pose proof (pkt_stream_wf _ _ _ HW H1) as W. destruct (receiver_key_wf _ _ _ _ _ W H2) as (_ & [T _] & _).
+  destruct W as (M & _ & _). unfold size_ok in HL, HC. rewrite max_tag_value in T. rewrite max_mki_value in M.
+  assert (A0 : 0 <= L - s_mki_size st - ak_tag (k_rtp_a k)).
+  { destruct (Z_lt_le_dec (L - s_mki_size st - ak_tag (k_rtp_a k)) 0) as [N|]; [|assumption].
+    rewrite u64_neg in H7 by lia. lia. }
+  rewrite u64_small in H7 by lia. rewrite u64_small in H5 by lia.
+  rewrite H6 in V. rewrite (u64_small (L - u_enc_start u - s_mki_size st - ak_tag (k_rtp_a k))) in V by lia.
+  rewrite u64_small in V by lia. lia.
+Qed.
+End RTP_LEN2.
+Print Assumptions unprotect_length.
